@@ -8,3 +8,4 @@ Definition B := C12_corr.B.
 Definition case := C12_corr.case.
 Definition Hist := C12_corr.Hist.
 Definition mismatches (cs : list case) : list N := C12_corr.mismatches cs.
+Definition GuardGrid := C12_corr.GuardGrid.
